@@ -8,7 +8,7 @@
      lists of different lengths that agree (field-wise ==) on the shorter one are ordered by length. *)
 From Coq Require Import ZArith List Bool Lia.
 From Cntgs Require Import Base BaseLemmas Layout LayoutThm Mem MemLemmas Vector Proxy Spec Rep ElemLemmas
-     Ordered Refine CompareThm RunsThm ElemThm CmpContent FastEq FastLess LessVec.
+     Ordered Refine CompareThm RunsThm ElemThm CmpContent TightThm FastEq FastLess LessVec.
 Import ListNotations.
 Local Open Scope Z_scope.
 
@@ -201,4 +201,26 @@ Proof.
   { destruct (vec_equal L v1 v2) eqn:E; [|reflexivity].
     destruct (vec_equal_not_less L Hwf HL v1 l1 v2 l2 R1 R2 E) as [H _]. congruence. }
   split; [exact H|]. rewrite vec_equal_sym. exact H.
+Qed.
+
+(* the hypotheses are satisfiable: three represented states over (uint32, VaryingSize<uint32>)
+   with different capacities, junk and histories - a strict prefix, and an ordered pair *)
+Definition laV0 := vrun fxL (fun _ => 51) (fst (mkvec fxL 3 40 [] 0 (fun _ => 51) 5 6)) [SEmplace fxA].
+Example less_laws_apply :
+  wf_plist fxL = true /\ fxL <> [] /\
+  Rep fxL laV0 [fxA] /\ Rep fxL fxV1 ([fxA] ++ [fxB]) /\ Rep fxL fxV3 [fxA; fxC] /\
+  vec_less fxL laV0 fxV1 = true /\ vec_less fxL fxV1 laV0 = false /\
+  vec_less fxL fxV3 fxV1 = true /\ vec_less fxL fxV1 fxV3 = false /\
+  vec_equal fxL fxV1 fxV2 = true /\ vec_less fxL fxV1 fxV2 = false.
+Proof.
+  assert (Hwf : wf_plist fxL = true) by reflexivity.
+  assert (Htr : all_triv fxL = true) by reflexivity.
+  split; [reflexivity|]. split; [discriminate|].
+  split; [|split; [|split; [|vm_compute; repeat split; reflexivity]]].
+  - apply (rep_every_history fxL 3 40 [] 0 (fun _ => 51) 5%nat 6%nat [SEmplace fxA] Hwf Htr); [lia|constructor|].
+    cbn. repeat split; try lia; repeat constructor.
+  - apply (rep_every_history fxL 2 12 [] 0 (fun _ => 170) 1%nat 2%nat [SEmplace fxA; SEmplace fxB] Hwf Htr); [lia|constructor|].
+    cbn. repeat split; try lia; repeat constructor.
+  - apply (rep_every_history fxL 4 64 [] 0 (fun _ => 85) 3%nat 4%nat [SEmplace fxA; SEmplace fxC] Hwf Htr); [lia|constructor|].
+    cbn. repeat split; try lia; repeat constructor.
 Qed.
